@@ -189,6 +189,10 @@ func c10SocksCase(c *Ctx) *Result {
 				c10AssocOrder(r, res)
 				continue
 			}
+			if it%3 == 1 {
+				c10BigReply(r, res)
+				continue
+			}
 			cfg := &socks5.Config{Users: users, HandshakeTimeout: 100 * time.Millisecond, AllowLoopbackDestination: true, AuthOpts: socks5.Auth{ClientSideAuthentication: true}}
 			serve(cfg, func(a net.Conn) {
 				a.Write([]byte{5, 3, 0, 1, 0, 0, 0, 0, 0, 0})
@@ -554,4 +558,96 @@ func c10AssocOrder(r *rand.Rand, res *Result) {
 		<-done
 	}
 	res.Obs["association_failure_orders"]++
+}
+
+// c10BigReply: a destination answers a relayed datagram with a reply that,
+// together with its SOCKS5 header, no longer fits a tunnel frame (IPv6 header
+// 22 bytes + up to 65527 bytes of payload), other destinations answer
+// normally, and then the client's connection is reset. All of it is network
+// input; the process must survive, whatever happens to the association.
+func c10BigReply(r *rand.Rand, res *Result) {
+	big, err := net.ListenUDP("udp6", &net.UDPAddr{IP: net.IPv6loopback})
+	if err != nil {
+		return
+	}
+	defer big.Close()
+	size := pick(r, 65513, 65514, 65520, 65527)
+	go func() {
+		b := make([]byte, 2048)
+		for {
+			_, from, err := big.ReadFromUDP(b)
+			if err != nil {
+				return
+			}
+			big.WriteToUDP(make([]byte, size), from)
+		}
+	}()
+	echo, err := newUDPEcho("127.0.0.1", 'E', 0)
+	if err != nil {
+		return
+	}
+	defer echo.conn.Close()
+	relay, err := net.ListenUDP("udp", &net.UDPAddr{IP: net.IPv6unspecified})
+	if err != nil {
+		return
+	}
+	l, err := net.Listen("tcp", "127.0.0.1:0")
+	if err != nil {
+		relay.Close()
+		return
+	}
+	defer l.Close()
+	ch := make(chan net.Conn, 1)
+	go func() { cn, _ := l.Accept(); ch <- cn }()
+	cs, err := net.Dial("tcp", l.Addr().String())
+	if err != nil {
+		relay.Close()
+		return
+	}
+	ss := <-ch
+	if ss == nil {
+		cs.Close()
+		relay.Close()
+		return
+	}
+	done := make(chan struct{})
+	go func() {
+		defer close(done)
+		socks5.RunUDPAssociateLoop(relay, apicommon.NewPacketOverStreamTunnel(ss), &net.Resolver{})
+	}()
+	tun := apicommon.NewPacketOverStreamTunnel(cs)
+	bp := big.LocalAddr().(*net.UDPAddr)
+	ep := echo.conn.LocalAddr().(*net.UDPAddr)
+	tun.Write(append(socksUDPHeader(bp.IP, bp.Port), 'x'))
+	time.Sleep(100 * time.Millisecond)
+	for k := 0; k < 3; k++ {
+		tun.Write(append(socksUDPHeader(ep.IP, ep.Port), dgramBody(0, k, 64, byte(k))...))
+	}
+	cs.SetReadDeadline(time.Now().Add(300 * time.Millisecond))
+	buf := make([]byte, 70000)
+	for {
+		n, err := tun.Read(buf)
+		if err != nil {
+			break
+		}
+		if n > 60000 {
+			res.Obs["big_replies_relayed"]++
+		} else {
+			res.Obs["replies_after_big_reply"]++
+		}
+	}
+	// the client goes away abruptly
+	if tc, ok := cs.(*net.TCPConn); ok && r.Intn(2) == 0 {
+		tc.SetLinger(0)
+	}
+	cs.Close()
+	select {
+	case <-done:
+	case <-time.After(2 * time.Second):
+		ss.Close()
+		relay.Close()
+		<-done
+	}
+	ss.Close()
+	res.Obs["big_reply_associations"]++
 }
